@@ -250,7 +250,10 @@ inline int sim_main(int argc, char** argv, Engine& e) {
         if (!Plan::parse(f, p, &rec)) { fprintf(stderr, "bad replay file\n"); return 2; }
         std::string want_class, want_key, want_hash;
         for (auto& kv : rec) { if (kv.first == "vclass") want_class = kv.second; if (kv.first == "key") want_key = kv.second; if (kv.first == "hash") want_hash = kv.second; }
-        Outcome o = run_forked(e, p);
+        // a replay is one deterministic plan, possibly a deliberately large one (the 2^24+1 geometry probe takes seconds), possibly on a
+        // loaded machine: it gets a generous time-out; the 20 s default is for the millisecond runs of the search
+        // (a plan recorded as HANG only has to show that again, under the search's time-out)
+        Outcome o = run_forked(e, p, want_class == "HANG" ? hang_timeout() : std::max(hang_timeout(), 180));
         if (flag("--verbose")) {
             // second, in-process run with the trace kept (only meaningful when the run does not crash)
             if (o.vclass != "CRASH" && o.vclass != "SANITIZER" && o.vclass != "HANG") {
